@@ -233,7 +233,13 @@ fn run(ctx: &mut Ctx) {
                 let run = exec::decode_type(attr, payload, rk).unwrap();
                 account(ctx, &format!("type{}", attr), &run, payload, None);
                 ctx.rep.bucket("readers.compared");
-                if !same_out(&got, &run.out) && !got.abnormal() {
+                // acceptance and value only: which error a rejection carries is not this check's business
+                let agree = match (&got, &run.out) {
+                    (Out::Ok(a), Out::Ok(b)) => a == b,
+                    (Out::Err(_), Out::Err(_)) => true,
+                    _ => false,
+                };
+                if !agree && !got.abnormal() {
                     ctx.violate(
                         format!("C02:reader-divergence:reveal-vs-type{}:{}-vs-{}", attr, got.class(), run.out.class()),
                         format!("reveal (private SliceReader) gives {} but the per-type decoder over the same {} decrypted payload octets through {:?} gives {}", out_str(&got), plen, rk, out_str(&run.out)),
